@@ -277,4 +277,16 @@ theorem run_buf {n : Nat} : ∀ (ops : List Op) (s s' : State), WInv s → GpuOK
       obtain ⟨a, b⟩ := step_w hW hG (hm op (List.mem_cons_self ..)) h1
       exact ih s1 s' a b (fun o ho => hm o (List.mem_cons_of_mem _ ho)) (step_buf hW hB h1) h
 
+/-- byte ranges of two buffers are disjoint -/
+def BytesDisj (a b : Buf) : Prop := a.vaddr + a.size ≤ b.vaddr ∨ b.vaddr + b.size ≤ a.vaddr
+
+theorem BDisj.bytes {ps : Nat} (hps : 0 < ps) {a b : Buf} (h : BDisj ps a b) : BytesDisj a b := by
+  have h1 := bytes_le_pages (bytes := a.size) hps
+  have h2 := bytes_le_pages (bytes := b.size) hps
+  unfold BDisj pgEnd at h
+  unfold BytesDisj
+  rcases h with h | h
+  · left; omega
+  · right; omega
+
 end C10
